@@ -723,6 +723,24 @@ func (h *c17H) doNew(line string, w []string) {
 	}
 }
 
+// doNorm compares the Lean Spec's font / fill normal forms with the harness's own c17Normalize.
+func (h *c17H) doNorm(line string, w []string) {
+	req, ok := c17DecStyle(w)
+	if !ok {
+		h.op(line, "bad-op")
+		return
+	}
+	exp, _ := c17Normalize(req, h.dec)
+	f, l := "~", "~"
+	if req.Font != nil {
+		f = strings.TrimPrefix(strings.Fields(c17EncStyle(&xl.Style{Font: exp.Font}))[0], "F=")
+	}
+	if req.Fill.Type == "pattern" || req.Fill.Type == "gradient" {
+		l = strings.TrimPrefix(strings.Fields(c17EncStyle(&xl.Style{Fill: exp.Fill}))[1], "L=")
+	}
+	h.op(line, "F="+f+" L="+l)
+}
+
 func (h *c17H) doGet(line string, id int) {
 	e, ok := h.getEnc(id)
 	if ok {
@@ -1030,6 +1048,8 @@ func (h *c17H) exec(line string) {
 		// environment line of a recorded transcript: re-derived here
 	case w[0] == "new":
 		h.doNew(line, w[1:])
+	case w[0] == "norm":
+		h.doNorm(line, w[1:])
 	case w[0] == "get" && len(w) == 2:
 		h.doGet(line, ints(1)[0])
 	case w[0] == "rereg" && len(w) == 2:
@@ -1556,9 +1576,13 @@ func (h *c17H) genCaseFrom(rng *Rng, nops int, gridHeavy bool, resetLine string)
 		}
 		switch {
 		case x < 30:
-			line := "new " + c17EncStyle(c17GenStyle(rng, pal))
+			st := c17GenStyle(rng, pal)
+			line := "new " + c17EncStyle(st)
 			reqs = append(reqs, line)
 			h.exec(line)
+			if _, exact := c17Normalize(st, h.dec); exact {
+				h.exec("norm " + c17EncStyle(st))
+			}
 			if rng.Chance(25) {
 				h.exec(line)
 			}
